@@ -78,9 +78,9 @@ func newTreeSimple(cfg *config) tree {
 
 // outputGrower returns the grower for output: JSON/YAML/TOML need no branches, so nothing is grown
 // for them. Every other operation (mkdir, verify, walk) needs the branches and paths whatever
-// encode option was passed.
+// encode option was passed, and so does the dry-run report.
 func (t *treeSimple) outputGrower(cfg *config) growerSimple {
-	if cfg.encode != encodeDefault {
+	if cfg.encode != encodeDefault && !cfg.dryrun {
 		return newNopGrowerSimple()
 	}
 	return t.grower
